@@ -24,12 +24,35 @@
                            (`sync_refuted_on_base_tree`, witness: a `move`
                            closure capturing a `Cell`).
 
+  T4 `share_sound`         what the `unsafe impl Send/Sync`s rest on, over facts
+                           regenerated from the sources (`Generated/C12Sharing`):
+                           (a) every acquisition of the list's lock under which a
+                           writing `RawList` method runs is exclusive — then in
+                           EVERY trace of the lock machine a write happens with
+                           the writer as only holder and nobody else moves while
+                           it is inside (`shared_list_write_exclusive`,
+                           `exclusive_section_alone`); under a shared mode two
+                           swaps race and lose an element
+                           (`shared_lock_admits_racing_swaps`);
+                           (b) no `Rc` / unlocked cell is reachable from an
+                           `unsafe impl` type — atomic counts are exact and free
+                           exactly once, at the last drop (`arc_frees_exactly_once`),
+                           split load/store counts free a live payload
+                           (`rc_count_frees_live_payload`);
+                           (c) a closure built from a `TypedFunc` owns what it uses
+                           and stays `Send + Sync` (`owning_closure_never_dangles`,
+                           `non_owning_closure_dangles`).
+                           `lock_discipline_on_tree`, `counts_atomic_on_tree`,
+                           `closures_own_on_tree` are the generated obligations.
+
   Not modelled (exercised by the stress harness only): data races inside the
   machine code itself, the global `TypeRegistry` mutex, the `symbol_table`
   interner.
 -/
 import RotoV.Lemmas.Conc
+import RotoV.Lemmas.ConcShare
 import RotoV.Generated.C12Bounds
+import RotoV.Generated.C12Sharing
 
 namespace RotoV.C12
 open RotoV.Conc
@@ -334,5 +357,369 @@ theorem sync_refuted_without_sync (f : Facts) (hc : claimed f = true)
     have := List.all_eq_true.mp hall _ hmem
     rw [hbad] at this
     exact absurd this (by decide)
+
+/-! ## T4 — what the `unsafe impl Send/Sync`s rest on -/
+
+section T4
+open Share
+
+/-- the semantic reading of the three decisions -/
+def ShareSound (f : Facts) : Prop :=
+  (lockKind f.listCell ≠ .none ∧ f.lockSites ≠ [] ∧
+    ∀ s ∈ f.lockSites, modeValid (lockKind f.listCell) s.mode = true
+      ∧ (siteNeedsExcl f s = true → grantsExcl (lockKind f.listCell) s.mode = true))
+  ∧ (f.unsafeTypes ≠ [] ∧ ∀ u ∈ f.unsafeTypes,
+      (∀ s ∈ u.fields, s.hasRc = false ∧ s.bareCell = false) ∧ (u.ty = .rawList ∨ u.sharedWriters = 0))
+  ∧ (f.closures ≠ [] ∧ ∀ c ∈ f.closures, closureOwns f c = true ∧ closureSendSync f c = true)
+
+/-- **T4.** The decision computed from the generated facts is exactly: every
+mutation of the shared list happens under an exclusive lock, every ownership
+count behind an `unsafe impl` is atomic (and no interior mutability escapes a
+lock), every closure derived from a handle owns what it uses and is itself
+`Send + Sync`. -/
+theorem share_sound (f : Facts) : shareJustified f = true ↔ ShareSound f := by
+  unfold shareJustified ShareSound lockDiscipline countsAtomic closuresOwn
+  simp only [Bool.and_eq_true, List.all_eq_true, bne_iff_ne, ne_eq, beq_iff_eq,
+    List.isEmpty_eq_false_iff, Bool.or_eq_true, Bool.not_eq_eq_eq_not, Bool.not_true]
+  constructor
+  · rintro ⟨⟨⟨⟨hk, hne⟩, hs⟩, ⟨hune, hu⟩⟩, ⟨hcne, hc⟩⟩
+    refine ⟨⟨hk, hne, fun s hsm => ⟨(hs s hsm).1, fun hn => ?_⟩⟩, ⟨hune, hu⟩, ⟨hcne, hc⟩⟩
+    rcases (hs s hsm).2 with h | h
+    · rw [hn] at h; cases h
+    · exact h
+  · rintro ⟨⟨hk, hne, hs⟩, ⟨hune, hu⟩, ⟨hcne, hc⟩⟩
+    refine ⟨⟨⟨⟨hk, hne⟩, fun s hsm => ⟨(hs s hsm).1, ?_⟩⟩, ⟨hune, hu⟩⟩, ⟨hcne, hc⟩⟩
+    cases hn : siteNeedsExcl f s with
+    | false => exact Or.inl rfl
+    | true => exact Or.inr ((hs s hsm).2 hn)
+
+/-! ### (a) the lock -/
+
+variable {ι : Type} [DecidableEq ι]
+
+/-- In every trace the lock admits: when an instance whose acquisition grants
+exclusivity writes, it is the only holder; and while such an instance holds the
+lock, every event is its own (nobody else acquires, accesses or releases). -/
+theorem exclusive_writes (k : LockKind) (mode : ι → LockMode) (pre post : List (Ev ι)) (e : Ev ι)
+    (Hf : List ι) (hrun : runLock k mode [] (pre ++ e :: post) = some Hf) :
+    ∃ H, runLock k mode [] pre = some H
+      ∧ (∀ i w, e = .acc i w → grantsExcl k (mode i) = true → H = [i])
+      ∧ (∀ i ∈ H, grantsExcl k (mode i) = true → e.inst = i) := by
+  obtain ⟨H, hpre, hrest⟩ := run_append pre (e :: post) [] Hf hrun
+  have hinv : Excl k mode H := run_excl pre [] H (excl_nil k mode) hpre
+  simp only [runLock] at hrest
+  cases hs : stepLock k mode H e with
+  | none => simp [hs] at hrest
+  | some H1 =>
+    refine ⟨H, hpre, ?_, ?_⟩
+    · intro i w he hg
+      subst he
+      simp only [stepLock] at hs
+      split at hs
+      · rename_i hc
+        exact hinv i (by simpa using hc) hg
+      · cases hs
+    · intro i hi hg
+      have hH := hinv i hi hg
+      rw [hH] at hs
+      exact step_alone hg hs
+
+/-- **(a), over the generated facts.** Instances run the methods of their lock
+site (`site i ∈ f.lockSites`, requesting that site's mode). If the discipline
+holds, then whenever an instance whose site can mutate the list performs an
+access, it is the only holder of the lock — in every trace, for every number of
+instances. -/
+theorem shared_list_write_exclusive (f : Facts) (hd : lockDiscipline f = true)
+    (site : ι → LockSite) (hsite : ∀ i, site i ∈ f.lockSites)
+    (pre post : List (Ev ι)) (i : ι) (w : Bool) (Hf : List ι)
+    (hmut : siteNeedsExcl f (site i) = true)
+    (hrun : runLock (lockKind f.listCell) (fun j => (site j).mode) [] (pre ++ .acc i w :: post) = some Hf) :
+    runLock (lockKind f.listCell) (fun j => (site j).mode) [] pre = some [i] := by
+  have hsound := (share_sound_lock f).mp hd
+  obtain ⟨H, hpre, hw, _⟩ := exclusive_writes _ _ pre post (.acc i w) Hf hrun
+  have hg := (hsound.2.2 (site i) (hsite i)).2 hmut
+  rw [hpre, hw i w rfl hg]
+where
+  share_sound_lock (f : Facts) : lockDiscipline f = true ↔
+      (lockKind f.listCell ≠ .none ∧ f.lockSites ≠ [] ∧
+        ∀ s ∈ f.lockSites, modeValid (lockKind f.listCell) s.mode = true
+          ∧ (siteNeedsExcl f s = true → grantsExcl (lockKind f.listCell) s.mode = true)) := by
+    unfold lockDiscipline
+    simp only [Bool.and_eq_true, List.all_eq_true, bne_iff_ne, ne_eq,
+      List.isEmpty_eq_false_iff, Bool.or_eq_true, Bool.not_eq_eq_eq_not, Bool.not_true]
+    constructor
+    · rintro ⟨⟨hk, hne⟩, hs⟩
+      refine ⟨hk, hne, fun s hsm => ⟨(hs s hsm).1, fun hn => ?_⟩⟩
+      rcases (hs s hsm).2 with h | h
+      · rw [hn] at h; cases h
+      · exact h
+    · rintro ⟨hk, hne, hs⟩
+      refine ⟨⟨hk, hne⟩, fun s hsm => ⟨(hs s hsm).1, ?_⟩⟩
+      cases hn : siteNeedsExcl f s with
+      | false => exact Or.inl rfl
+      | true => exact Or.inr ((hs s hsm).2 hn)
+
+/-- and while it is inside, every event of the trace is its own: the critical
+section of a mutating operation is atomic with respect to all other operations
+on the list -/
+theorem exclusive_section_alone (f : Facts) (hd : lockDiscipline f = true)
+    (site : ι → LockSite) (hsite : ∀ i, site i ∈ f.lockSites)
+    (pre post : List (Ev ι)) (e : Ev ι) (i : ι) (H Hf : List ι)
+    (hmut : siteNeedsExcl f (site i) = true)
+    (hpre : runLock (lockKind f.listCell) (fun j => (site j).mode) [] pre = some H) (hi : i ∈ H)
+    (hrun : runLock (lockKind f.listCell) (fun j => (site j).mode) [] (pre ++ e :: post) = some Hf) :
+    e.inst = i := by
+  have hsound := (shared_list_write_exclusive.share_sound_lock f).mp hd
+  obtain ⟨H', hpre', _, halone⟩ := exclusive_writes _ _ pre post e Hf hrun
+  rw [hpre] at hpre'
+  cases hpre'
+  exact halone i hi ((hsound.2.2 (site i) (hsite i)).2 hmut)
+
+/-- **Snapshots are consistent.** While an instance `r` holds the lock in ANY
+mode (a reader taking a `to_vec` snapshot, a `contains` scan, another writer), no
+other instance writes: a write by `j` between `r`'s acquisition and `r`'s release
+forces `j = r`. So everything one operation reads under its guard comes from one
+state of the list. (The oracle of the reader threads of `swap-rust` /
+`swap-script`: every snapshot is a permutation of whole elements.) -/
+theorem no_foreign_write_while_held (f : Facts) (hd : lockDiscipline f = true)
+    (site : ι → LockSite) (hsite : ∀ i, site i ∈ f.lockSites)
+    (pre mid post : List (Ev ι)) (r j : ι) (Hf : List ι)
+    (hmut : siteNeedsExcl f (site j) = true) (hnorel : Ev.rel r ∉ mid)
+    (hrun : runLock (lockKind f.listCell) (fun i => (site i).mode) []
+      ((pre ++ .acq r :: mid) ++ .acc j true :: post) = some Hf) :
+    j = r := by
+  have hone := shared_list_write_exclusive f hd site hsite (pre ++ .acq r :: mid) post j true Hf hmut hrun
+  obtain ⟨H0, hpre, hrest⟩ := run_append pre (.acq r :: mid) [] [j] hone
+  simp only [runLock] at hrest
+  cases hs : stepLock (lockKind f.listCell) (fun i => (site i).mode) H0 (.acq r) with
+  | none => simp [hs] at hrest
+  | some H1 =>
+    simp only [hs] at hrest
+    have hr1 : r ∈ H1 := by
+      simp only [stepLock] at hs
+      split at hs
+      · cases hs; exact List.mem_cons_self ..
+      · cases hs
+    have := held_preserved mid H1 [j] hr1 hnorel hrest
+    exact (List.mem_singleton.mp this).symm
+
+/-- **(a), end to end: N threads × swap leave a permutation.** Any number of
+instances each swap two positions of one shared list, each through a lock site of
+the generated facts under which a writing method runs. If the discipline holds,
+every complete trace the lock admits — every interleaving of the micro-steps of
+all swaps that the lock does not forbid — computes exactly what the swaps
+compute when run one after the other in the order in which they got the lock,
+and the final list is a permutation of the initial one. (This is the oracle of
+the harness classes `swap-rust` / `swap-script`.) -/
+theorem exclusive_swaps_permute (f : Facts) (hd : lockDiscipline f = true)
+    (site : Nat → LockSite) (hsite : ∀ i, site i ∈ f.lockSites)
+    (hmut : ∀ i, siteNeedsExcl f (site i) = true)
+    (a b : Nat → Nat) (tr : List Micro) (arr : List Nat)
+    (hrun : runLock (lockKind f.listCell) (fun j => (site j).mode) [] (tr.map Micro.toEv) = some [])
+    (hprog : ∀ i, projMicro i tr = [] ∨ projMicro i tr = swapProg i (a i) (b i))
+    (hb : ∀ i, a i < arr.length ∧ b i < arr.length) :
+    execMicro (arr, []) tr = (acqOrder tr).foldl (fun arr i => swapList arr (a i) (b i)) arr
+    ∧ (execMicro (arr, []) tr).Perm arr := by
+  have hsound := (shared_list_write_exclusive.share_sound_lock f).mp hd
+  have hex : ∀ i, grantsExcl (lockKind f.listCell) ((fun j => (site j).mode) i) = true :=
+    fun i => (hsound.2.2 (site i) (hsite i)).2 (hmut i)
+  have hser := exclusive_swaps_serialize (lockKind f.listCell) (fun j => (site j).mode) a b hex
+    tr.length tr (Nat.le_refl _) hrun hprog arr []
+  refine ⟨hser, ?_⟩
+  rw [hser]
+  exact foldl_swap_perm a b _ arr hb
+
+/-- **Refutation for a shared mode** (`RwLock::read` around `swap`): the lock
+admits a trace in which `swap(0,1)` and `swap(1,2)`, each running exactly its own
+program, overlap; the list `[0,1,2]` ends as `[1,2,1]` — element 0 lost, 1
+duplicated. The same trace is impossible under a `Mutex`. -/
+theorem shared_lock_admits_racing_swaps :
+    let tr : List Micro :=
+      [.acq 0, .acq 1, .load 0 0 0, .load 0 1 1, .load 1 0 1, .load 1 1 2,
+       .store 0 0 1, .store 0 1 0, .store 1 1 1, .store 1 2 0, .rel 0, .rel 1]
+    projMicro 0 tr = swapProg 0 0 1 ∧ projMicro 1 tr = swapProg 1 1 2
+    ∧ (runLock .rwlock (fun _ => LockMode.rwRead) [] (tr.map Micro.toEv)).isSome = true
+    ∧ execMicro ([0, 1, 2], []) tr = [1, 2, 1]
+    ∧ runLock .mutex (fun _ => LockMode.mutexLock) [] (tr.map Micro.toEv) = none
+    ∧ runLock .rwlock (fun _ => LockMode.rwWrite) [] (tr.map Micro.toEv) = none := by
+  decide
+
+/-! ### (b) ownership counts -/
+
+/-- **Atomic counts free exactly once, at the last drop.** `n > 0` handles exist;
+threads clone and drop them in any order (every event through a live handle).
+The count always equals the number of live handles; the payload is freed iff
+all of them are gone, exactly once, and never while one is alive. -/
+theorem arc_frees_exactly_once (n : Nat) (hn : 0 < n) (evs : List CountEv) (n' fr' : Nat)
+    (h : countRun (n, 0) evs = some (n', fr')) :
+    n' + drops evs = n + clones evs ∧ (fr' = if n' = 0 then 1 else 0) := by
+  have := countRun_exact evs n 0 n' fr' h
+  refine ⟨this.1, ?_⟩
+  rw [this.2]
+  by_cases h0 : n' = 0 <;> simp [h0, hn]
+
+/-- **Atomic counts do not depend on the interleaving** (the premise of T1's
+`accounting_balances`: every update is one atomic delta). Two runs of the same
+clone / drop events in different global orders — two interleavings of the same
+threads — end with the same count and the same number of frees. -/
+theorem atomic_count_interleaving_free (n : Nat) (hn : 0 < n) (evs evs' : List CountEv) (h : evs.Perm evs')
+    (r r' : Nat × Nat) (hr : countRun (n, 0) evs = some r) (hr' : countRun (n, 0) evs' = some r') : r = r' := by
+  obtain ⟨c, f⟩ := r
+  obtain ⟨c', f'⟩ := r'
+  have h1 := arc_frees_exactly_once n hn evs c f hr
+  have h2 := arc_frees_exactly_once n hn evs' c' f' hr'
+  have hc : c = c' := by
+    have := clones_perm h
+    have := drops_perm h
+    omega
+  subst hc
+  rw [h1.2, h2.2]
+
+/-- **Atomic = uninterrupted.** Written as separate loads and stores, but with
+no step of another thread between a thread's load and its store, the count of
+the load/store machine stays equal to the number of live handles and the
+payload is never freed while a handle lives: what `Arc` guarantees and `Rc`
+does not is exactly that no other thread gets in between. -/
+theorem atomic_pairs_never_free_live (n : Nat) (evs : List (Nat × CountEv)) (n' fr' : Nat)
+    (h : countRun (n, 0) (evs.map (·.2)) = some (n', fr')) :
+    let s := rcRun { count := n, live := n, tmp := [], frees := 0, freedWhileLive := false } (atomicOps evs)
+    s.count = n' ∧ s.live = n' ∧ s.frees = fr' ∧ s.freedWhileLive = false :=
+  rc_atomic_pairs_exact evs { count := n, live := n, tmp := [], frees := 0, freedWhileLive := false } n' fr' rfl rfl h
+
+/-- **Refutation for a non-atomic count** (`Rc` behind an `unsafe impl Send`):
+one handle exists; threads 1 and 2 each clone it (load, load, store, store: one
+increment lost) and drop their clone again: the count reaches 0 and the payload
+is freed while the original handle is still alive. -/
+theorem rc_count_frees_live_payload :
+    let s := rcRun { count := 1, live := 1, tmp := [], frees := 0, freedWhileLive := false }
+      [(1, .ld), (2, .ld), (1, .stInc), (2, .stInc), (1, .ld), (1, .stDec), (2, .ld), (2, .stDec)]
+    s.count = 0 ∧ s.live = 1 ∧ s.frees = 1 ∧ s.freedWhileLive = true := by
+  decide
+
+/-! ### (c) closures derived from a handle -/
+
+/-- a closure that holds a count on the module can be called whatever owners
+other threads drop, in any order -/
+theorem owning_closure_never_dangles : ∀ (tr : List OwnEv) (owners : List Nat), ownRun true owners tr = true
+  | [], _ => rfl
+  | .dropOwner o :: rest, owners => by
+    simp only [ownRun]; exact owning_closure_never_dangles rest _
+  | .call :: rest, owners => by
+    simp only [ownRun, Bool.true_or, Bool.true_and]; exact owning_closure_never_dangles rest _
+
+/-- one that does not: the package (owner 0) and the last handle (owner 1) are
+dropped, the next call runs in freed code -/
+theorem non_owning_closure_dangles :
+    ownRun false [0, 1] [.call, .dropOwner 0, .call, .dropOwner 1, .call] = false := by
+  decide
+
+/-! ### the generated obligations -/
+
+/-- every mutation of the shared list on the current tree happens under an
+exclusive lock -/
+theorem lock_discipline_on_tree : lockDiscipline Gen.C12Sharing.facts = true := by decide
+
+/-- no non-atomic count and no unlocked interior mutability behind an
+`unsafe impl Send/Sync` of the current tree -/
+theorem counts_atomic_on_tree : countsAtomic Gen.C12Sharing.facts = true := by decide
+
+/-- every closure built from a `TypedFunc` on the current tree owns what it
+uses and is `Send + Sync` -/
+theorem closures_own_on_tree : closuresOwn Gen.C12Sharing.facts = true := by decide
+
+theorem share_sound_on_tree : ShareSound Gen.C12Sharing.facts :=
+  (share_sound _).mp (by
+    unfold shareJustified
+    rw [lock_discipline_on_tree, counts_atomic_on_tree, closures_own_on_tree]; rfl)
+
+end T4
+
+namespace T4Example
+open Share
+
+/-- a small tree: a mutex-protected list with `get(&self)` (0), `swap(&self)`
+writing (1), `push(&mut self)` (2); a handle with a raw pointer and an `Arc` -/
+def good : Facts where
+  edition := 2024
+  unsafeTypes := [{ ty := .functionDescription, send := true, sync := true, fields := [.arc (.own (.dyn false false)), .raw], sharedWriters := 0 },
+                  { ty := .typedFunc, send := true, sync := true, fields := [.raw, .plain, .own (.arc .ext)], sharedWriters := 0 }]
+  listCell := .arc (.mutex .ext)
+  rawMethods := [{ recv := .shared, writes := false }, { recv := .shared, writes := true }, { recv := .excl, writes := true }]
+  lockSites := [{ mode := .mutexLock, calls := [0], mutBorrow := false }, { mode := .mutexLock, calls := [1], mutBorrow := false },
+                { mode := .mutexLock, calls := [2], mutBorrow := false }]
+  typedFuncFields := [.raw, .plain, .own (.arc .ext)]
+  closures := [{ isMove := true, wholeSelf := true, fields := [] }]
+
+def rwSitesGood : List LockSite :=
+  [{ mode := .rwRead, calls := [0], mutBorrow := false }, { mode := .rwWrite, calls := [1], mutBorrow := false },
+   { mode := .rwWrite, calls := [2], mutBorrow := false }]
+
+def rwSitesBad : List LockSite :=
+  [{ mode := .rwRead, calls := [0], mutBorrow := false }, { mode := .rwRead, calls := [1], mutBorrow := false },
+   { mode := .rwWrite, calls := [2], mutBorrow := false }]
+
+/-- non-vacuity of T4: the decision accepts a realistic tree … -/
+example : shareJustified good = true ∧ ShareSound good := ⟨by decide, (share_sound good).mp (by decide)⟩
+
+/-- … a correct `RwLock` conversion (readers `read`, writers `write`) as well … -/
+example : shareJustified { good with listCell := .arc (.rwlock .ext), lockSites := rwSitesGood } = true := by decide
+
+/-- … and rejects: the `&self` writer under the read lock; -/
+example : lockDiscipline { good with listCell := .arc (.rwlock .ext), lockSites := rwSitesBad } = false := by decide
+
+/-- no lock at all; -/
+example : lockDiscipline { good with listCell := .arc (.cell .ext) } = false := by decide
+
+/-- an `Rc` behind the blanket `unsafe impl`; -/
+example : countsAtomic { good with unsafeTypes :=
+    [{ ty := .functionDescription, send := true, sync := true, fields := [.rc (.own (.dyn false false)), .raw], sharedWriters := 0 }] } = false := by decide
+
+/-- a closure that captures the code pointer without the module (and is then
+not `Send + Sync` either); the same closure before edition 2021 captured all of
+`self` and was fine. -/
+example : closuresOwn { good with closures := [{ isMove := true, wholeSelf := false, fields := [0, 1] }] } = false
+    ∧ closureOwns good { isMove := true, wholeSelf := false, fields := [0, 1] } = false
+    ∧ closureSendSync good { isMove := true, wholeSelf := false, fields := [0, 1] } = false
+    ∧ closuresOwn { good with edition := 2018, closures := [{ isMove := true, wholeSelf := false, fields := [0, 1] }] } = true := by
+  decide
+
+/-- the hypotheses of `shared_list_write_exclusive` are satisfiable by a trace
+with two instances (a reader at site 0, a swapper at site 1) -/
+example :
+    let site : Nat → LockSite := fun i =>
+      if i = 0 then { mode := .mutexLock, calls := [0], mutBorrow := false }
+      else { mode := .mutexLock, calls := [1], mutBorrow := false }
+    (∀ i, site i ∈ good.lockSites) ∧
+    runLock (lockKind good.listCell) (fun j => (site j).mode) []
+      ([.acq 0, .acc 0 false, .rel 0, .acq 1] ++ .acc 1 true :: [.rel 1, .acq 0, .rel 0]) = some []
+    ∧ siteNeedsExcl good (site 1) = true := by
+  refine ⟨fun i => ?_, by decide, by decide⟩
+  by_cases h : i = 0 <;> simp [h, good]
+
+/-- the hypotheses of `exclusive_swaps_permute` are satisfiable: two swaps through
+the mutex-protected swap site, one after the other (the only kind of trace a
+mutex admits) -/
+example :
+    let site : Nat → LockSite := fun _ => { mode := .mutexLock, calls := [1], mutBorrow := false }
+    let a : Nat → Nat := fun i => if i = 0 then 0 else 1
+    let b : Nat → Nat := fun i => if i = 0 then 1 else 2
+    let tr := swapProg 1 1 2 ++ swapProg 0 0 1
+    lockDiscipline good = true ∧ (∀ i, site i ∈ good.lockSites) ∧ (∀ i, siteNeedsExcl good (site i) = true)
+    ∧ runLock (lockKind good.listCell) (fun j => (site j).mode) [] (tr.map Micro.toEv) = some []
+    ∧ (∀ i, projMicro i tr = [] ∨ projMicro i tr = swapProg i (a i) (b i))
+    ∧ execMicro ([7, 8, 9], []) tr = [9, 7, 8] := by
+  refine ⟨by decide, fun _ => by simp [good], fun _ => by simp [siteNeedsExcl, good, RawMethod.needsExcl], by decide, fun i => ?_, by decide⟩
+  by_cases h0 : i = 0
+  · subst h0; exact Or.inr (by decide)
+  · by_cases h1 : i = 1
+    · subst h1; exact Or.inr (by decide)
+    · refine Or.inl ?_
+      have e0 : ¬ (0 : Nat) = i := fun e => h0 e.symm
+      have e1 : ¬ (1 : Nat) = i := fun e => h1 e.symm
+      simp [projMicro, swapProg, Micro.toEv, Ev.inst, e0, e1]
+
+example : countRun (1, 0) [.clone, .clone, .drop, .drop, .drop] = some (0, 1) := by decide
+
+end T4Example
 
 end RotoV.C12
